@@ -6,7 +6,7 @@
    usage: c09_driver <dt> <calls> whfast <kernel> <corrector> <corrector2> <coordinates> <var 0|1|2> <safe> <keep>
                                    saba <type> <safe> <keep> | mercurius <safe> | eos <phi0> <phi1> <n> <safe>
    calls: comma separated: s step, y synchronize, v save_to_file, c copy (+ one step of the copy), e energy,
-          g read particles, i<N> integrate N steps (exact_finish_time 0), Fs0 Fs1 safe_mode, Fk0 Fk1 keep_unsynchronized,
+          g read particles, i<N> integrate N steps (exact_finish_time 0), x<N> integrate N steps + half a step with exact_finish_time 1, Fs0 Fs1 safe_mode, Fk0 Fk1 keep_unsynchronized,
           Fr recalculate_coordinates_this_timestep = 1 */
 #include <stdio.h>
 #include <stdlib.h>
@@ -65,6 +65,7 @@ int main(int argc, char** argv){
         else if (!strcmp(tok, "e")){ volatile double e = reb_simulation_energy(r); (void)e; struct reb_vec3d L = reb_simulation_angular_momentum(r); (void)L; }
         else if (!strcmp(tok, "g")){ volatile double s = 0; for (unsigned int i = 0; i < r->N; i++) s += r->particles[i].x + r->particles[i].vx; }
         else if (tok[0] == 'i'){ int n = atoi(tok + 1); reb_simulation_integrate(r, r->t + (n - 0.5) * r->dt); }
+        else if (tok[0] == 'x'){ int n = atoi(tok + 1); r->exact_finish_time = 1; reb_simulation_integrate(r, r->t + (n + 0.5) * r->dt); r->exact_finish_time = 0; }
         else if (!strcmp(tok, "Fs0") || !strcmp(tok, "Fs1")){ int v = tok[2] - '0';
             if (!strcmp(integ, "whfast")) r->ri_whfast.safe_mode = v; else if (!strcmp(integ, "saba")) r->ri_saba.safe_mode = v; }
         else if (!strcmp(tok, "Fk0") || !strcmp(tok, "Fk1")){ int v = tok[2] - '0';
